@@ -520,7 +520,7 @@ pub fn is_superclass(sup: &str, class: &str) -> bool {
 
 /// Structural corner cases the uniform generator reaches rarely: empty selections, deep chains, wide
 /// same-class columns, reference cycles and fan-in, equal values meeting in one file, long values.
-pub fn shaped_dom(rng: &mut StdRng, xml_safe: bool, scale: bool) -> WeakDom {
+pub fn shaped_dom(rng: &mut StdRng, xml_safe: bool, scale: bool, known: &[KnownProp]) -> WeakDom {
     let mut dom = WeakDom::new(InstanceBuilder::new("DataModel"));
     let root = dom.root_ref();
     let shared_pool: Vec<SharedString> = vec![
@@ -528,7 +528,48 @@ pub fn shaped_dom(rng: &mut StdRng, xml_safe: bool, scale: bool) -> WeakDom {
         SharedString::new(vec![0, 1, 2, 3, 255]),
         SharedString::new(Vec::new()),
     ];
-    match if scale { 10 } else { rng.gen_range(0..10) } {
+    match if scale { 10 } else { [0usize, 1, 2, 3, 4, 5, 6, 7, 8, 9, 11, 11, 12][rng.gen_range(0..13)] } {
+        11 | 12 if !scale => {
+            // sibling classes that share property names (with different defaults, even different types): each class
+            // gets one instance that sets the property and one that lacks it
+            let groups: [&[&str]; 5] = [
+                &["TextLabel", "TextButton", "TextBox"],
+                &["ImageLabel", "ImageButton"],
+                &["Part", "WedgePart", "TrussPart", "SpawnLocation", "Seat"],
+                &["IntValue", "NumberValue", "StringValue", "BoolValue", "Vector3Value", "Color3Value"],
+                &["Frame", "ScrollingFrame", "CanvasGroup"],
+            ];
+            let group = groups[rng.gen_range(0..groups.len())];
+            let shared: Vec<&KnownProp> = known
+                .iter()
+                .filter(|k| !k.is_alias && k.name != "Name" && k.name != "UniqueId" && k.ty != VariantType::Ref)
+                .filter(|k| group.iter().filter(|c| is_superclass(&k.class, c)).count() >= 2)
+                .collect();
+            let mut names: Vec<&str> = shared.iter().map(|k| k.name.as_str()).collect();
+            names.sort();
+            names.dedup();
+            names.shuffle(rng);
+            names.truncate(rng.gen_range(1..4));
+            let mut order: Vec<&str> = group.to_vec();
+            order.shuffle(rng);
+            for class in order {
+                let mut with = InstanceBuilder::new(class).with_name(format!("{}Set", class));
+                for n in &names {
+                    if let Some(k) = shared.iter().find(|k| k.name == *n && is_superclass(&k.class, class)) {
+                        if let Some(v) = value_of(k.ty, rng, &[], xml_safe) {
+                            with.add_property(*n, v);
+                        }
+                    }
+                }
+                if rng.gen_bool(0.5) {
+                    dom.insert(root, with);
+                    dom.insert(root, InstanceBuilder::new(class).with_name(format!("{}Bare", class)));
+                } else {
+                    dom.insert(root, InstanceBuilder::new(class).with_name(format!("{}Bare", class)));
+                    dom.insert(root, with);
+                }
+            }
+        }
         10 if rng.gen_bool(0.5) => {
             // other things that come in hundreds: classes, SharedStrings, properties of one instance, children of
             // one parent, keypoints, tags, attributes
